@@ -137,6 +137,18 @@ func routeGen(kind string, sequential bool) func(r *rand.Rand, tier string) []sp
 					}
 				}
 			}
+			if kind == "grpcmux" && i%8 == 2 {
+				// listeners that are closed and whose id is accepted again at once, many times over, on both
+				// sides: the new listener must get the next connection dialled for the id
+				p.Items = p.Items[:0]
+				for j := uint32(1); j <= 2; j++ {
+					p.Items = append(p.Items, spec.RouteItem{Dir: "host", AcceptFirst: true, Raw: true, ID: j})
+					p.Items = append(p.Items, spec.RouteItem{Dir: "plugin", AcceptFirst: true, Raw: true, ID: j})
+				}
+				for k := 0; k < 24; k++ {
+					p.Items = append(p.Items, spec.RouteItem{Dir: []string{"host", "plugin"}[k%2], AcceptFirst: true, Reaccept: true, DoubleClose: k%8 >= 6, ID: uint32(1 + (k/2)%2)})
+				}
+			}
 			if kind == "grpcmux" && i%4 == 3 {
 				// a short sequence whose redials land on the instant the broker expires
 				// the bookkeeping of the previous dial to the same listener (5 s later)
@@ -302,6 +314,9 @@ func routeJudge(prop string) func(c spec.Case, evs []spec.Event, d *Death) CaseR
 				continue
 			}
 			res.Counters["pairs"]++
+			if it.Reaccept {
+				res.Counters["reaccepts"]++
+			}
 			if it.WaitReady {
 				res.Counters["late_accepts_with_retrying_dialler"]++
 				if dd.Err == "" {
